@@ -5,7 +5,7 @@ use crate::model::*;
 use crate::{ensure, lib};
 use hifitime::efmt::consts::ISO8601;
 use hifitime::efmt::Formatter;
-use hifitime::{Epoch, HifitimeError};
+use hifitime::{Epoch, HifitimeError, TimeScale};
 use proptest::prelude::*;
 use serde::{Deserialize, Serialize};
 use std::str::FromStr;
@@ -271,11 +271,44 @@ pub fn num_oracle(c: &Num) -> Verdict {
     }
 }
 
+// ---------------------------------------------------------------- text naming a leap second (enumerated)
+/// "YYYY-MM-DDT23:59:60" on each of the 27 days that end with an IERS leap second, in six spellings: accepted, and
+/// the same epoch as the constructor builds from those fields (the enumeration is C13's: every month end 1958-2040)
+fn leap_text_value_oracle(c: &crate::props::c13::LeapText) -> Verdict {
+    let m = if c.m == 0 { if c.june { 6 } else { 12 } } else { c.m as u32 };
+    let d = month_len(c.y, m) - c.back as u32;
+    let next_day_s = (days_1900(c.y, m, d) + 1) * 86_400;
+    let is_leap_day = c.hh == 23 && c.mm == 59 && leap_table().iter().skip(1).any(|(ts, _)| *ts == next_day_s);
+    if !is_leap_day {
+        return Verdict::Skip("no leap second there (rejection is C13's subject)");
+    }
+    let body = format!("{:04}-{:02}-{:02}{}23:59:60", c.y, m, d, if c.form == 4 { ' ' } else { 'T' });
+    let (txt, ts, ns) = match c.form {
+        1 => (format!("{body} UTC"), TimeScale::UTC, 0),
+        2 => (format!("{body}Z"), TimeScale::UTC, 0),
+        3 => (format!("{body} TAI"), TimeScale::TAI, 0),
+        5 => (format!("{body}.5 UTC"), TimeScale::UTC, 500_000_000),
+        _ => (body, TimeScale::UTC, 0),
+    };
+    let txt = txt.as_str();
+    let want = match lib!(Epoch::maybe_from_gregorian(c.y as i32, m as u8, d as u8, 23, 59, 60, ns, ts)) {
+        Ok(e) => e,
+        Err(e) => return Verdict::Fail(format!("the constructor rejects 23:59:60 on {}-{}-{}: {:?}", c.y, m, d, e)),
+    };
+    match parse_both(txt) {
+        Ok(Ok(p)) => ensure!(same(&p, &want), "{:?} parses to {} count {}, the constructor builds {} count {}", txt, SCALE_NAMES[scale_index(p.time_scale)], count(p.duration), SCALE_NAMES[scale_index(want.time_scale)], count(want.duration)),
+        Ok(Err(err)) => return Verdict::Fail(format!("{:?} (a leap second announced by IERS) does not parse: {:?}", txt, err)),
+        Err(m) => return Verdict::Fail(m),
+    }
+    Verdict::Pass("leap-second-text", true)
+}
+
 pub fn subs() -> Vec<Box<dyn DynSub>> {
     vec![
         sub(Sub { name: "c10.library_text", source: Source::Gen(rt_strategy, 1_600_000, 15_000_000), oracle: rt_oracle, known: no_known, hang_is_violation: false }),
         sub(Sub { name: "c10.grammar_text", source: Source::Gen(gram_strategy, 1_600_000, 15_000_000), oracle: gram_oracle, known: no_known, hang_is_violation: false }),
         sub(Sub { name: "c10.numeric_forms", source: Source::Gen(num_strategy, 800_000, 5_000_000), oracle: num_oracle, known: no_known, hang_is_violation: false }),
+        sub(Sub { name: "c10.leap_second_text", source: Source::Enum(crate::props::c13::leap_text_enum, |_| true), oracle: leap_text_value_oracle, known: no_known, hang_is_violation: false }),
         crate::props::fuzzsub::c10_fuzz(),
         crate::props::fuzzsub::fc10(),
     ]
